@@ -586,18 +586,20 @@ func leafZ(x *engine.X, k *kase, seed int64, A *run2, i ID) {
 	note("zero-source/completed-reproducibly/"+fam, 1)
 }
 
-// leafS: the same bytes in short reads must give the same messages.
+// leafS: the same bytes in short reads must give the same messages. The comparison is conclusive when a second base
+// run reproduces run A exactly (then the only thing that differs between A and S is HOW the bytes are handed out).
 func leafS(x *engine.X, k *kase, seed int64, A *run2, i ID) {
 	fam := family(k)
 	x.Case(fmt.Sprintf("%s/S/p%d", k.name, i))
+	C := runTwo(k, "C", seed, nil, 1)
+	if dc, _ := diffRuns(A.o[0], C.o[0], nil); !C.o[0].allOK() || !sameStats(A.st[0], C.st[0]) || len(dc) > 0 {
+		x.Observe("INCONCLUSIVE: the base run does not reproduce itself")
+		note("inconclusive/short-read/"+fam, 1)
+		return
+	}
 	S := runTwo(k, "S", seed, map[ID]spec{i: {mode: mShort}}, 1)
 	o := S.o[0]
 	if !honest(x, k, fmt.Sprintf("S (party %d's source answers with at most %d bytes per Read)", i, shortChunk), o) {
-		return
-	}
-	if S.st[0][i].bytes != A.st[0][i].bytes {
-		x.Observe("INCONCLUSIVE: byte consumption differs under short reads", S.st[0][i].bytes, A.st[0][i].bytes)
-		note("inconclusive/short-read/"+fam, 1)
 		return
 	}
 	diffs, _ := diffRuns(A.o[0], o, nil)
@@ -605,9 +607,14 @@ func leafS(x *engine.X, k *kase, seed int64, A *run2, i ID) {
 		if n >= 3 {
 			break
 		}
-		failf(x, fmt.Sprintf("short-read/%s|%s|%s", fam, kindCid(d.cid), normPath(d.path)), "%s: party %d's source delivered the SAME bytes in reads of at most %d bytes; message %s leaf %s changed: part of the value was not taken from the source", k.name, i, shortChunk, d.key, d.path)
+		failf(x, fmt.Sprintf("short-read/%s|%s|%s", fam, kindCid(d.cid), normPath(d.path)), "%s: party %d's source delivered the SAME byte sequence in reads of at most %d bytes (it consumed %d bytes, %d in the base run); message %s leaf %s changed: part of the value was not taken from the source", k.name, i, shortChunk, S.st[0][i].bytes, A.st[0][i].bytes, d.key, d.path)
 	}
-	x.Observe("calls", S.st[0][i].calls, "vs", A.st[0][i].calls)
+	for _, name := range sortedKeys(A.o[0].joint) {
+		if A.o[0].joint[name] != o.joint[name] {
+			failf(x, "short-read-output/"+fam+"/"+jointName(name), "%s: party %d's source delivered the same byte sequence in short reads; the output %s changed", k.name, i, name)
+		}
+	}
+	x.Observe("calls", S.st[0][i].calls, "vs", A.st[0][i].calls, "bytes", S.st[0][i].bytes, "vs", A.st[0][i].bytes)
 }
 
 // ---------------------------------------------------------------------------------------------- TestCheck
